@@ -1066,3 +1066,116 @@ B("C05", "first-pool-as-loop", CONT,
 B("C05", "confidence-inlined", CONT,
   "                required_samples = np.ceil((variation_coeff * confidence / precision_level) ** 2).astype(np.int32)",
   "                required_samples = np.ceil((1.96 * variation_coeff / precision_level) ** 2).astype(np.int32)")
+
+# vectorised ordinal constructor: gather through the argsort permutation is right, scatter is the seeded defect (seeded/C04-*)
+B("C04", "ordinal-vectorised-gather", DIS,
+  """        for rank_i, i in enumerate(indexes):
+            for rank_j, j in enumerate(indexes):
+                matrix[rank_i, rank_j] = abs(p[i] - p[j])
+                max_val = max(matrix[rank_i, rank_j], max_val)
+        matrix /= max_val""",
+  """        positions = np.asarray(p)
+        matrix = np.abs(positions[:, None] - positions[None, :])[np.ix_(indexes, indexes)]
+        matrix = matrix / max(max_val, matrix.max())""")
+M("C04", "ordinal-vectorised-scatter", DIS,
+  """        for rank_i, i in enumerate(indexes):
+            for rank_j, j in enumerate(indexes):
+                matrix[rank_i, rank_j] = abs(p[i] - p[j])
+                max_val = max(matrix[rank_i, rank_j], max_val)
+        matrix /= max_val""",
+  """        positions = np.asarray(p)
+        matrix[np.ix_(indexes, indexes)] = np.abs(positions[:, None] - positions[None, :])
+        matrix /= matrix.max(initial=1.0)""", "R-C04-5")
+
+# =============================================================================================
+# C12
+# =============================================================================================
+M("C12", "weight-one-over-k", ALI, "                weight_base = 1 / (nv - 1)", "                weight_base = 1 / nv", "R-C12-1")
+M("C12", "confidence-without-alpha", ALI,
+  "                    pos_dissim = dissimilarity.alpha * dissimilarity.positional_dissim.d(unit1, unit2)",
+  "                    pos_dissim = dissimilarity.positional_dissim.d(unit1, unit2)", "R-C12-1")
+M("C12", "category-filter-or", ALI,
+  """                    if category is not None and ((unit1 is None or unit1.annotation != category)
+                                                 and (unit2 is None or unit2.annotation != category)):""",
+  """                    if category is not None and ((unit1 is None or unit1.annotation != category)
+                                                 or (unit2 is None or unit2.annotation != category)):""", "R-C12-1",
+  "gamma-k only counts pairs where BOTH units carry the category")
+M("C12", "empty-pair-weight-one", ALI,
+  "                           total_weight += dissimilarity.delta_empty", "                           total_weight += 1", "R-C12-1")
+M("C12", "non-combined-check-after-loop", ALI,
+  """        if not isinstance(dissimilarity, CombinedCategoricalDissimilarity):
+            raise TypeError("Gamma-k and Gamma-cat can only be computed using "
+                            f"the {CombinedCategoricalDissimilarity} "
+                            f"dissimilarity.")
+
+        total_disorder = 0""",
+  """        total_disorder = 0""", "R-C12-2")
+M("C12", "chance-jobs-with-none-category", CONT,
+  """                p.submit(_compute_gamma_k_job,
+                         *(self.dissimilarity, alignment, category))""",
+  """                p.submit(_compute_gamma_k_job,
+                         *(self.dissimilarity, alignment, None))""", "R-C12-3", "gamma-k compares a per-category observed value with gamma-cat chance values")
+M("C12", "confidence-not-clamped", ALI,
+  "                    weight_confidence = max(0, 1 - pos_dissim)", "                    weight_confidence = 1 - pos_dissim", "R-C12-1",
+  "negative weights for distant co-aligned units (only with alpha*pos > 1)")
+M("C12", "none-unit-dereferenced", ALI,
+  """                    if category is not None and ((unit1 is None or unit1.annotation != category)
+                                                 and (unit2 is None or unit2.annotation != category)):""",
+  """                    if category is not None and (unit1.annotation != category
+                                                 and (unit2 is None or unit2.annotation != category)):""", "R-C12-1")
+M("C12", "weight-without-base", ALI,
+  "                    weight = weight_base * weight_confidence  # Each categorical dissimilarity is weighted by both",
+  "                    weight = weight_confidence  # Each categorical dissimilarity is weighted by both", "R-C12-1",
+  "identical when every unitary alignment has 2 real units (k-1 = 1)")
+M("C12", "gamma-cat-expected-over-best", CONT,
+  """                p.submit(_compute_gamma_k_job,
+                         *(self.dissimilarity, alignment, None))
+                for alignment in self.chance_alignments""",
+  """                p.submit(_compute_gamma_k_job,
+                         *(self.dissimilarity, self.best_alignment, None))
+                for alignment in self.chance_alignments""", "R-C12-3")
+B("C12", "pairs-via-combinations", ALI,
+  """            for i, (_, unit1) in enumerate(unitary_alignment.n_tuple):
+                for _, unit2 in unitary_alignment.n_tuple[i + 1:]:
+                    # Case handler for gamma-k
+                    if category is not None and ((unit1 is None or unit1.annotation != category)
+                                                 and (unit2 is None or unit2.annotation != category)):
+                        continue
+                    no_cat = False
+                    if unit1 is None or unit2 is None:
+                        # extra case for unaligned annotations, experimental
+                        if unit1 is not None or unit2 is not None:
+                           total_disorder += dissimilarity.delta_empty * dissimilarity.delta_empty
+                           total_weight += dissimilarity.delta_empty
+                        continue
+                    no_loop = False
+                    pos_dissim = dissimilarity.alpha * dissimilarity.positional_dissim.d(unit1, unit2)
+                    weight_confidence = max(0, 1 - pos_dissim)
+                    cat_dissim = dissimilarity.categorical_dissim.d(unit1, unit2)
+                    weight = weight_base * weight_confidence  # Each categorical dissimilarity is weighted by both
+                    total_disorder += cat_dissim * weight  # a positional "confidence" and the # of alignments
+                    total_weight += weight  # in the unitary alignment""",
+  """            import itertools
+            for (_, unit1), (_, unit2) in itertools.combinations(unitary_alignment.n_tuple, 2):
+                if category is not None and ((unit1 is None or unit1.annotation != category)
+                                             and (unit2 is None or unit2.annotation != category)):
+                    continue
+                no_cat = False
+                if unit1 is None or unit2 is None:
+                    if unit1 is not None or unit2 is not None:
+                        total_disorder += dissimilarity.delta_empty * dissimilarity.delta_empty
+                        total_weight += dissimilarity.delta_empty
+                    continue
+                no_loop = False
+                pos_dissim = dissimilarity.alpha * dissimilarity.positional_dissim.d(unit1, unit2)
+                weight_confidence = max(0, 1 - pos_dissim)
+                cat_dissim = dissimilarity.categorical_dissim.d(unit1, unit2)
+                weight = weight_base * weight_confidence
+                total_disorder += cat_dissim * weight
+                total_weight += weight""")
+B("C12", "accumulation-reordered", ALI,
+  """                    weight = weight_base * weight_confidence  # Each categorical dissimilarity is weighted by both
+                    total_disorder += cat_dissim * weight  # a positional "confidence" and the # of alignments
+                    total_weight += weight  # in the unitary alignment""",
+  """                    total_weight += weight_confidence * weight_base
+                    total_disorder += weight_base * cat_dissim * weight_confidence""")
